@@ -17,7 +17,8 @@ all trials fit in the pre-dispatch window (<=5), seeded orders beyond; a real th
 Widened (the ways a user READS "the figures it records", and configurations never driven before):
   S1  every successful trial's score is the score of ITS tree: |score - objective(tree)**score_compression|
       <= 1e-5 (the smudge), objective(tree) from the independent cost model (flops/write/size/combo/limit,
-      also given as Objective instances with non-default parameters)
+      also given as Objective instances with non-default parameters, and a plain function log2(flops) of the
+      trial - for which H4 demands that the recorded flops/write/size are nevertheless the tree's)
   S2  the returned tree's true objective value is the minimum over the true values of all successful trials
   R1  get_trials(): row i is trial i in report order - its method, its params, its size/flops/write; the
       winner's row carries the independent model's figures of the RETURNED tree
@@ -62,7 +63,7 @@ RULE = (
     "completion order, thread pool, (thorough) process pools} x max_repeats 1-12 x max_time; distinct = distinct "
     "(network, methods, objective, post-processing, executor, completion order); non-trivial = >=3 trials reported. "
     "Widened dimensions (drawn from a derived generator, the base case stream is unchanged): objective given as an "
-    "Objective instance with non-default parameters; methods=None / one string; optlib=None; numeric max_time "
+    "Objective instance with non-default parameters or as a plain function of the trial dict (post-processing 'none' only); methods=None / one string; optlib=None; numeric max_time "
     "{0, 3ms, 30s}; progbar; on_trial_error='warn'; forested reconf / slicing_reconf; parallel='auto'/'threads'; "
     "api search / __call__; a second search on the same object after switching opt.parallel; "
     "HyperCompressedOptimizer x chi {None,2,4,8} x 6 compressed objectives x reconf_opts (windowed) on/off; "
@@ -76,13 +77,15 @@ ASSUMPTIONS = [
     "not an independent model); 'size' may be the tracker's max_size or peak_size (write for write-compressed) as the objectives record",
     "to_dfs_parametrized reports write as log2 and to_df as log10: either logarithm is accepted for every figure column",
     "HyperMultiOptimizer / TrialTreeMulti is outside the statement (no constructor sets varmults/numconfigs, not in the quantifier)",
-    "a plain function as minimize is excluded (PENDING-FINDING, see FINDINGS_widen-d.md)",
+    "a plain function as minimize (documented: 'a custom callable [taking] a trial dict') is only combined with post-processing "
+    "'none': slicing_opts / reconf_opts / simulated_annealing_opts need Objective methods (score_slice_index, cost_local_tree_node) "
+    "that a plain function cannot offer, so those combinations are outside what the library can promise",
 ]
 REQUIRED_MONITORS = ["H1_count", "H2_best_is_min", "H3_tree_of_query", "H4_costs_true", "H5_faults_skipped", "scripted_orders", "threadpool_runs",
                      "post:none", "post:slicing", "post:reconf", "post:slicing_reconf", "post:anneal", "post:stacked",
                      "S1_score_of_tree", "S2_true_min", "R1_get_trials", "R2_sorted_views", "R3_print_trials", "R4_dataframes",
                      "R5_get_tree_path", "P1_second_search", "P1_pool_switch", "C1_compressed_figures", "cfg:compressed_reconf",
-                     "cfg:objective_instance", "cfg:max_time_seconds", "cfg:progbar", "cfg:call_api", "cfg:forest"]
+                     "cfg:objective_instance", "cfg:plain_callable", "cfg:max_time_seconds", "cfg:progbar", "cfg:call_api", "cfg:forest"]
 SHARD_TIMEOUT = {"quick": 500, "thorough": 5400}
 
 FAULT = {"calls": 0, "fail_at": {}, "on": False}
@@ -134,10 +137,11 @@ OBJECTIVE_SPECS = (
     ("SizeObjective", {"secondary_weight": 0.01}), ("WriteObjective", {"secondary_weight": 0.0}),
     ("ComboObjective", {"factor": 256}), ("ComboObjective", {"factor": 1}), ("LimitObjective", {"factor": 8}),
 )
-# PENDING-FINDING (FINDINGS_widen-d.md, F-C08-1): HyperOptimizer(minimize=<plain function>) - documented as
-# "a custom callable [taking] a trial dict" - raises KeyError('flops') out of search(); the input class is
-# generated only when this switch is on.
-PLAIN_CALLABLE_MINIMIZE = False
+# HyperOptimizer(minimize=<plain function of the trial dict>): F-C08-1 of FINDINGS_widen-d.md, repaired in /repo by
+# cc45b0a (ComputeScore fills in flops / write / size from the trial's tree).  Generated only WITHOUT post-processing
+# options: slicing / reconfiguration / annealing call Objective methods on the tree's default objective, which a
+# plain function does not have (see ASSUMPTIONS).
+PLAIN_CALLABLE_MINIMIZE = True
 
 
 def post_opts(post, tree_size):
@@ -686,7 +690,9 @@ def execute(rep, case):
             rep.mon("cfg:forest")
     if "+" in case["post"]:
         rep.mon("post:stacked")
-    if case.get("minimize_obj"):
+    if case.get("minimize_obj") == "plain-callable":
+        rep.mon("cfg:plain_callable")
+    elif case.get("minimize_obj"):
         rep.mon("cfg:objective_instance")
     if isinstance(case.get("max_time"), (int, float)):
         rep.mon("cfg:max_time_seconds")
@@ -801,10 +807,11 @@ def widen(case, cs):
     elif rw.random() < 0.2:
         name, kw_ = rw.choice(OBJECTIVE_SPECS)
         case["minimize_obj"] = [name, dict(kw_)]
-    elif PLAIN_CALLABLE_MINIMIZE and rw.random() < 0.05:
+    elif PLAIN_CALLABLE_MINIMIZE and rw.random() < 0.06:
         case["minimize_obj"] = "plain-callable"
+        case["post"] = "none"   # see ASSUMPTIONS
     if case["kind"] == "exact":
-        if rw.random() < 0.03:
+        if rw.random() < 0.03 and case.get("minimize_obj") != "plain-callable":
             case["post"] = rw.choice(["reconf_forest", "slicing_reconf_forest", "slicing+reconf_forest"])
             case["max_repeats"] = min(case["max_repeats"], 4)   # a forest per trial is expensive
         if "verif-faulty" not in case["methods"]:
